@@ -318,6 +318,68 @@ let additive (lbc : str -> n list) (o : options) (p : str) : bool =
 
 let default_pen p = (p = default_penalties)
 
+(* ------------------------------------------------------------------ C03 at the wrap level when the built-in
+   OptimalFit variant disagrees with wrap_optimal_fit: recover the arrangement from the
+   returned lines and cost it *)
+let q_of_n (x : n) : Obj.t = Obj.repr { qnum = (match x with N0 -> Z0 | Npos p -> Zpos p); qden = XH }
+let recover_groups (o : options) (first : bool) (bws : word list) (lines : str list) : word list list option =
+  let rec go first ws ls =
+    match ls with
+    | [] -> if ws = [] then Some [] else None
+    | l :: rest ->
+        let ind = if first then o.o_ii else o.o_si in
+        if ws = [] then (if l = ind && rest = [] then Some [[]] else None)
+        else begin
+          let n = List.length ws in
+          let rec try_k k =
+            if k > n then None
+            else begin
+              let g = take k ws in
+              if ind @ body g @ lastw_pen g = l then
+                (match go false (drop k ws) rest with
+                 | Some gs -> Some (g :: gs)
+                 | None -> try_k (k + 1))
+              else try_k (k + 1)
+            end in
+          try_k 1
+        end in
+  go first bws lines
+
+let check_builtin_mismatch (lbc : str -> n list) (o : options) (first : bool) (para : str) (builtin : string) =
+  match o.o_alg with
+  | FirstFit -> ()
+  | OptimalFit p ->
+      (match pipeline_words cw alnum lbc custom3 o first para with
+       | None -> ()
+       | Some bws ->
+           let lines = List.map (fun l -> l.txt) (dolines builtin) in
+           (match recover_groups o first bws lines with
+            | None -> say "C03" "FAIL" "the built-in OptimalFit variant's lines are not an arrangement of the paragraph's fragments that wrap_optimal_fit returns"
+            | Some groups ->
+                let fs = List.map (fun w -> { fw = q_of_n w.w_width; fws = q_of_n (blen w.w_ws); fpen = q_of_n (blen w.w_pen) }) bws in
+                let lw = List.map q_of_n (line_widths cw o first) in
+                let off = ref 0 in
+                let ranges = List.map (fun g -> let l = List.length g in let r = (nat_of_int !off, nat_of_int (!off + l)) in off := !off + l; r) groups in
+                if bws = [] then ()
+                else begin
+                  let ci = fq (arrangement_cost numQ p fs lw ranges) and co = fq (opt_cost numQ p fs lw) in
+                  if c03_pre fs lw && not (qeq_bool ci co) then
+                    say "C03" "FAIL" (Printf.sprintf "wrap with the built-in OptimalFit variant returned an arrangement of cost %s; the minimum is %s"
+                                        (dec_of_z ci.qnum) (dec_of_z co.qnum))
+                  else say "C03" "skip" "built-in variant differs at equal cost or outside the precondition"
+                end))
+
+let split_mismatch (s : string) : (string * string) option =
+  (* CUSTOM-MISMATCH[a][b] *)
+  let pre = "CUSTOM-MISMATCH[" in
+  let lp = String.length pre in
+  if String.length s > lp && String.sub s 0 lp = pre then begin
+    match String.index_from_opt s lp ']' with
+    | Some i when i + 1 < String.length s && s.[i + 1] = '[' ->
+        Some (String.sub s lp (i - lp), String.sub s (i + 2) (String.length s - i - 3))
+    | _ -> None
+  end else None
+
 (* ------------------------------------------------------------------ dedent / indent specs *)
 let str_lines (s : str) : str list = lines s
 let rec lcp (a : str) (b : str) : str = match a, b with x :: a', y :: b' when x = y -> x :: lcp a' b' | _ -> []
@@ -346,6 +408,18 @@ let run (lineno : int) (lbc : str -> n list) ofit (args : string array) (impl : 
   else if List.exists (fun p -> String.length p >= 15 && String.sub p 0 15 = "CUSTOM-MISMATCH") ps then
     say "C06" "FAIL" "built-in OptimalFit and the recorded wrap_optimal_fit disagree"
   else say "C04" "ok" "";
+  (match f 0, ps with
+   | "wrap", [r] ->
+       (match split_mismatch r with
+        | Some (_, b) when not (String.contains b 'P') ->
+            let o = dopts (f 1) and t = ds (f 2) in
+            if List.length (split_le o.o_le t) = 1 then check_builtin_mismatch lbc o true t b
+        | _ -> ())
+   | "wsl", [_; r] ->
+       (match split_mismatch r with
+        | Some (_, b) when not (String.contains b 'P') -> check_builtin_mismatch lbc (dopts (f 1)) (f 2 = "1") (ds (f 3)) b
+        | _ -> ())
+   | _ -> ());
   if List.exists bad ps && not (f 0 = "of" && impl = "ERR") then ()
   else begin
     check_records recf;
@@ -546,7 +620,7 @@ let run (lineno : int) (lbc : str -> n list) ofit (args : string array) (impl : 
     | "wrap9" ->
         let o = dopts (f 1) and a = ds (f 2) and b = ds (f 3) in
         (match ps with
-         | [r1; r2; r3; r4; r5; r6; r7] ->
+         | [r1; r2; r3; r4; r5; r6; r7; r8] ->
              let l1 = dlist r1 and l2 = dlist r2 and l3 = dolines r3 and l4 = dolines r4 in
              let texts ls = List.map (fun l -> l.txt) ls in
              let n1 = List.length l1 in
@@ -561,6 +635,7 @@ let run (lineno : int) (lbc : str -> n list) ofit (args : string array) (impl : 
              else if o.o_ii = [] && o.o_si = [] && tail2 <> texts l3 then say "C09" "FAIL" "with empty indents the remaining lines differ from wrap(b)"
              else if List.length t2 < count_le (a @ le @ b) then say "C09" "FAIL" "fewer output lines than input lines"
              else if ds r5 <> join le (texts t2) then say "C09" "FAIL" "fill is not wrap's lines joined by the line ending"
+             else if ds r8 <> join le (texts l3) then say "C09" "FAIL" "fill(b) is not wrap(b)'s lines joined by the line ending"
              else if not (List.mem lF o.o_ii || List.mem lF o.o_si)
                      && ds r7 <> List.concat_map (fun c -> if N.eqb c lF then [cR; lF] else [c]) (ds r6) then
                say "C09" "FAIL" "switching LF to CRLF changes more than the line endings"
